@@ -52,7 +52,9 @@ const ASI = [
   'function f(a) { return { async m() { return await a + 1 }, async *g() { yield await a + 1 }, h: async function () { return `${await a}` } } }',
   'function f(a) { const g = async () => (await a).trim(); return async x => { for await (const y of x) a += y; return a } }',
   'function* f(a) { const g = function* () { yield a + 1 }; return (yield* g()) + (yield a) }',
-  'function f(a, b) { return class extends (a + b) { static async *[a + b]() { yield* [await a + b] } } }'
+  'function f(a, b) { return class extends (a + b) { static async *[a + b]() { yield* [await a + b] } } }',
+  // D49 witness (kept last so that the indices above stay put): a legacy non-octal decimal literal (sloppy mode only) as member object
+  'function f(a) {\n  const r = 089 .toString() + a\n  return r\n}'
 ]
 
 function usesAwaitAsIdentifier (code) {
